@@ -337,7 +337,17 @@ func (g *gen) plainField() FieldDesc {
 		f.Tag = quoteTag("json", "x")
 	}
 	f.Init = ""
+	f.Plain = true
 	return f
+}
+
+// plainPtrStruct: a nil pointer to a struct in which nothing is tagged
+func (g *gen) plainPtrStruct() FieldDesc {
+	sub := &StructDesc{Fields: []FieldDesc{g.plainField()}}
+	if g.chance(0.5) {
+		sub.Fields = append(sub.Fields, g.plainField())
+	}
+	return FieldDesc{Name: g.fieldName(), Exported: true, Kind: "p", PtrNil: true, Sub: sub, Plain: true}
 }
 
 func (g *gen) positionalStruct() *StructDesc {
@@ -373,6 +383,8 @@ func (g *gen) structFor(sc *scope, depth int, allowCmds bool, cmdDepth int) *Str
 		switch {
 		case g.chance(0.08):
 			sd.Fields = append(sd.Fields, g.plainField())
+		case g.chance(0.04):
+			sd.Fields = append(sd.Fields, g.plainPtrStruct())
 		case depth < 2 && g.chance(0.12):
 			// nested group (or plain nested struct)
 			sub := g.structFor(sc, depth+1, false, cmdDepth)
@@ -646,7 +658,17 @@ func (g *gen) genArgv(real *Real) []string {
 			}
 		case x < g.p.Weird+g.p.Unknown:
 			// unknown / near-miss / out-of-scope option
-			if len(all) > 0 && g.chance(0.6) {
+			var flagShorts []rune
+			for _, o := range inScope {
+				if isBoolCode(o.code) && o.short != 0 && o.short != '-' && o.short != '=' {
+					flagShorts = append(flagShorts, o.short)
+				}
+			}
+			if len(flagShorts) > 0 && g.chance(0.3) {
+				// a cluster in which a known flag stands next to an unknown one
+				f := string(flagShorts[r.Intn(len(flagShorts))])
+				argv = append(argv, []string{"-" + f + "Z", "-Z" + f, "-" + f + f + "~q", "-" + f + "Z=1"}[r.Intn(4)])
+			} else if len(all) > 0 && g.chance(0.6) {
 				o := all[r.Intn(len(all))]
 				switch {
 				case o.long != "" && g.chance(0.6):
